@@ -62,6 +62,7 @@ func ruleLoopDep(c *Ctx, rule, short, name, callee string) {
 	fd, p := c.decl(short, name)
 	fn := p.Types.Name() + "." + name
 	n := 0
+	var helpers []*ast.FuncDecl
 	var visit func(node ast.Node, iter map[types.Object]bool, body ast.Node)
 	visit = func(node ast.Node, iter map[types.Object]bool, body ast.Node) {
 		ast.Inspect(node, func(x ast.Node) bool {
@@ -94,6 +95,24 @@ func ruleLoopDep(c *Ctx, rule, short, name, callee string) {
 				return false
 			case *ast.CallExpr:
 				sel, ok := s.Fun.(*ast.SelectorExpr)
+				if ok && iter != nil && sel.Sel.Name != callee {
+					// a helper method of the same receiver, called per row
+					if hfd := helperDecl(p, s); hfd != nil && callsMethod(hfd.Body, callee) {
+						hobjs := map[types.Object]bool{}
+						pi := 0
+						for _, fl := range hfd.Type.Params.List {
+							for _, nm := range fl.Names {
+								if pi < len(s.Args) && dependsOn(p, s.Args[pi], iter, body, 0) {
+									hobjs[p.TypesInfo.Defs[nm]] = true
+								}
+								pi++
+							}
+						}
+						helpers = append(helpers, hfd)
+						visit(hfd.Body, hobjs, hfd.Body)
+					}
+					return true
+				}
 				if !ok || sel.Sel.Name != callee || len(s.Args) != 1 || iter == nil {
 					return true
 				}
@@ -162,6 +181,26 @@ func ruleLoopDep(c *Ctx, rule, short, name, callee string) {
 		})
 		return true
 	})
+	for _, h := range helpers {
+		var hrecv types.Object
+		if h.Recv != nil && len(h.Recv.List) == 1 && len(h.Recv.List[0].Names) == 1 {
+			hrecv = p.TypesInfo.Defs[h.Recv.List[0].Names[0]]
+		}
+		ast.Inspect(h.Body, func(y ast.Node) bool {
+			call, ok := y.(*ast.CallExpr)
+			if !ok {
+				return true
+			}
+			sel, ok := call.Fun.(*ast.SelectorExpr)
+			if !ok || (sel.Sel.Name != "Start" && sel.Sel.Name != "End" && sel.Sel.Name != "Len") {
+				return true
+			}
+			if id, ok := unparen(sel.X).(*ast.Ident); ok && hrecv != nil && p.TypesInfo.ObjectOf(id) == hrecv {
+				badCall = call
+			}
+			return true
+		})
+	}
 	key := fn + "/span-taken-before-loop"
 	if badCall != nil {
 		c.bad(rule, key, badCall.Pos(), "the alignment's span ("+exprStr(c.Fset, badCall)+") is recomputed inside the loop that re-offsets the rows: once an earlier row has moved, later rows are mirrored about a different span, so ragged alignments without a row covering the whole span are not mirrored and applying the operation twice does not restore them")
@@ -297,4 +336,33 @@ func ruleScratchReverse(c *Ctx, rule string) {
 			c.ok(rule, key, rd.call.Pos(), "on every path of the iteration SetSlice(segment) and RevComp|Reverse of the scratch precede the append")
 		}
 	}
+}
+
+// helperDecl resolves a call to the declaration of a method of this package.
+func helperDecl(p *packages.Package, call *ast.CallExpr) *ast.FuncDecl {
+	fo, ok := calleeOf(p, call).(*types.Func)
+	if !ok || fo.Pkg() != p.Types {
+		return nil
+	}
+	for _, f := range p.Syntax {
+		for _, d := range f.Decls {
+			if fd, ok := d.(*ast.FuncDecl); ok && fd.Body != nil && p.TypesInfo.Defs[fd.Name] == fo {
+				return fd
+			}
+		}
+	}
+	return nil
+}
+
+func callsMethod(n ast.Node, name string) bool {
+	found := false
+	ast.Inspect(n, func(x ast.Node) bool {
+		if call, ok := x.(*ast.CallExpr); ok {
+			if sel, ok := call.Fun.(*ast.SelectorExpr); ok && sel.Sel.Name == name {
+				found = true
+			}
+		}
+		return true
+	})
+	return found
 }
